@@ -3,7 +3,7 @@
    kind_ladder / handlers / decorator tables / kind_map are Gen/C17_tables.v, regenerated from /repo on every run. *)
 From Coq Require Import List ZArith String Bool Arith.
 From Verif Require Import Lib.Sexp Model.C02_kinds Model.C02_params Proofs.C02_params Model.C17_base Gen.C17_tables Model.C17_agents Proofs.C17_agents
-  Model.C17_bases Proofs.C17_bases Model.C17_pyobj Proofs.C17_pyobj Model.C17_star Proofs.C17_star.
+  Model.C17_bases Proofs.C17_bases Model.C17_pyobj Proofs.C17_pyobj Model.C17_star Proofs.C17_star Model.C17_rebind Proofs.C17_rebind.
 From Verif Require Model.C04_scope.
 Import ListNotations.
 Open Scope string_scope. Open Scope list_scope. Open Scope nat_scope.
@@ -308,3 +308,17 @@ Theorem C17_wildcard_binder_agree :
   forall n body, griffe_binder n body = cpy_binder n 0 body None.
 Proof. exact binder_agree. Qed.
 Print Assumptions C17_wildcard_binder_agree.
+
+(* ---- a name bound several times in one scope (imports, definitions, assignments, any number, any order): when the
+   statements CPython does not execute are exactly the branch assignments the visitor skips (gap F12 otherwise), the
+   binding the visitor keeps is the one that survives at runtime *)
+Theorem C17_rebind_agree :
+  forall l, gap_rebind l = false -> visit_all l = run_all l.
+Proof. exact rebind_agree. Qed.
+Print Assumptions C17_rebind_agree.
+
+Theorem C17_rebind_refuted_type_checking :
+  let l := [mkB BImport true false; mkB BAssign true true] in
+  gap_rebind l = true /\ visit_all l = Some BImport /\ run_all l = Some BAssign.
+Proof. exact rebind_refuted_type_checking. Qed.
+Print Assumptions C17_rebind_refuted_type_checking.
